@@ -653,6 +653,64 @@ func c15pure(c *Ctx, p *load.Program) {
 	}
 	cg := must(p.Func(pkgVAA, "CreateGovernanceVAA"), "vaa.CreateGovernanceVAA")
 	fns = append(fns, cg)
+	// helpers of the same module reached from the constructors are part of construction
+	seenFn := map[*ssa.Function]bool{}
+	for _, f := range fns {
+		seenFn[f] = true
+	}
+	for depth, frontier := 0, append([]*ssa.Function{}, fns...); depth < 3 && len(frontier) > 0; depth++ {
+		var next []*ssa.Function
+		for _, f := range frontier {
+			eachInstr(f, func(i ssa.Instruction) {
+				if ci, ok := i.(ssa.CallInstruction); ok {
+					g := ci.Common().StaticCallee()
+					if g != nil && !seenFn[g] && len(g.Blocks) > 0 && g.Pkg != nil && (g.Pkg.Pkg.Path() == pkgVAA || g.Pkg.Pkg.Path() == pkgGuardiand) {
+						seenFn[g] = true
+						fns = append(fns, g)
+						next = append(next, g)
+					}
+				}
+			})
+		}
+		frontier = next
+	}
+	// rootGlobal: the package-level slice variable v is (a reslice of), directly or as a parameter
+	// bound to one at a call site inside the analysed functions
+	var rootGlobal func(v ssa.Value, f *ssa.Function, depth int) string
+	rootGlobal = func(v ssa.Value, f *ssa.Function, depth int) string {
+		for {
+			if sl, ok := v.(*ssa.Slice); ok {
+				v = sl.X
+				continue
+			}
+			break
+		}
+		if u, ok := v.(*ssa.UnOp); ok && u.Op == token.MUL {
+			if g, ok := u.X.(*ssa.Global); ok {
+				return g.Name()
+			}
+		}
+		if pr, ok := v.(*ssa.Parameter); ok && depth < 2 {
+			idx := -1
+			for k, q := range f.Params {
+				if q == pr {
+					idx = k
+				}
+			}
+			for _, s := range callsTo(p, f) {
+				if !seenFn[s.Fn] || idx < 0 {
+					continue
+				}
+				args := s.Instr.(ssa.CallInstruction).Common().Args
+				if idx < len(args) {
+					if g := rootGlobal(args[idx], s.Fn, depth+1); g != "" {
+						return g + " (passed by " + shortFn(s.Fn) + ")"
+					}
+				}
+			}
+		}
+		return ""
+	}
 	for _, f := range fns {
 		bad := ""
 		eachInstr(f, func(i ssa.Instruction) {
@@ -663,10 +721,28 @@ func c15pure(c *Ctx, p *load.Program) {
 						bad = n
 					}
 				}
+				// append(g, …) may write into g's backing array; bytes.NewBuffer(g) hands g's
+				// array to a buffer that later writes overwrite: the bytes already returned for an
+				// earlier message then change when the next one is built
+				if (n == "append" || n == "bytes.NewBuffer") && len(ci.Common().Args) > 0 {
+					if g := rootGlobal(ci.Common().Args[0], f, 0); g != "" {
+						bad = n + " on package variable " + g + " can write into its backing array (the payload returned for one message is overwritten by the next)"
+					}
+				}
+				if n == "copy" && len(ci.Common().Args) > 0 {
+					if g := rootGlobal(ci.Common().Args[0], f, 0); g != "" {
+						bad = "copy into package variable " + g
+					}
+				}
 			}
 			if st, ok := i.(*ssa.Store); ok {
 				if _, isG := st.Addr.(*ssa.Global); isG {
 					bad = "store to package variable " + facts.Term(st.Addr)
+				}
+				if ia, ok := st.Addr.(*ssa.IndexAddr); ok {
+					if g := rootGlobal(ia.X, f, 0); g != "" {
+						bad = "store into element of package variable " + g
+					}
 				}
 			}
 		})
